@@ -49,6 +49,7 @@ struct Sim {
     int max_new_blocks{6};
     bool cursor_check{true};
     std::string pid;                          // property id for messages
+    bool leave_ibd{false};                    // true: after the base chain set the mock clock next to the tip so the node leaves IBD (default: stay in IBD)
     std::function<void(const std::string&)> extra_check{};  // additional per-state monitor (after each event)
 
     explicit Sim(Node& node) : n(node) {}
@@ -58,7 +59,14 @@ struct Sim {
     {
         L.AddGenesis(Params().GenesisBlock());
         SetMockTime(Params().GenesisBlock().nTime + 600 * 100000);
-        MineEmpty(n, L, base_blocks);
+        MineEmpty(n, L, leave_ibd ? base_blocks - 1 : base_blocks);
+        if (leave_ibd) {
+            // block times are parent + 600: put "now" one hour after the tip and connect one more block so that
+            // the node's IBD latch flips (some notifications are deliberately not fired during IBD)
+            SetMockTime(n.tip()->GetBlockTime() + 3600);
+            MineEmpty(n, L, 1);
+            if (n.chainman().IsInitialBlockDownload()) throw std::runtime_error("chainsim: node did not leave IBD");
+        }
         base_tip = n.tip()->GetBlockHash();
         base_height = n.height();
     }
